@@ -236,8 +236,7 @@ func NewDialogueRunner(storer variable.Storer, rngSeed string, readers ...io.Rea
 
 	functionStorer := newFunctionStorer(rng)
 	functionStorer.convertAndAddFunction("visited", func(node string) bool {
-		_, ok := runner.visitedNodes[node]
-		return ok
+		return runner.visitedNodes[node] > 0
 	})
 	functionStorer.convertAndAddFunction("visited_count", func(node string) int {
 		count := runner.visitedNodes[node]
